@@ -32,6 +32,9 @@ def check(run, views, tier):
         _saved = (run.explanation, run.trusted, run.not_decided)
         _gr.r_depth(run, F, _lj(_os.path.join(_V, "tables", "panic.json")))
         run.explanation, run.trusted, run.not_decided = _saved
+        from .. import readerrules as _rr
+        _rr.r_trace_display(run, F)
+        _rr.r_token(run, F)
         n = cr.r_tagmap(run, F, T, check_registry=False)
         run.floor("R-TAGMAP", n, 19, "fixed-tag kinds")
         ne, nd = cr.r_layout(run, F, T, external=False, casts=True)
